@@ -1648,6 +1648,14 @@ pub fn gen_subs(_seed: u64, knobs: &SubKnobs) -> ImCfg {
         }
         controllers[pair.ctl_node - 1].scripts.push(list);
     }
+    // Healthy subscribers may take up to 80 ms over a StatusResponse: reports stay in flight for a
+    // moment, so that requests and changes meet them there
+    for c in controllers.iter_mut() {
+        let think = [0u32, 0, 10, 40, 80][tape::biased(5, 500) as usize];
+        if think > 0 {
+            c.report_behaviour = (0..12).map(|_| RepB::Ponder(think)).collect();
+        }
+    }
     if knobs.bad_subscribers {
         for (ci, c) in controllers.iter_mut().enumerate() {
             if knobs.one_bad_node && ci > 0 {
@@ -1857,10 +1865,17 @@ pub fn check_subs(run: &ImRun, root: &RootMeta, knobs: &SubKnobs, out: &mut Outc
         };
         let req = requester(&run.cfg, v.pair);
         // Replaced by a later subscribe of the same requester without KeepSubscriptions?
+        // (the request ends the requester's earlier subscriptions when the device handles it -
+        // also if the new subscription is then refused, e.g. for lack of a free slot; an answer
+        // of any kind shows that the device handled the request)
         let replaced = views.iter().any(|o| {
             o.pair == v.pair
                 && o.established > v.established
                 && matches!(step_of(&run.cfg, o.op).map(|s| &s.op), Some(CtlOp::Subscribe { keep: false, .. }))
+        }) || run.ops.iter().any(|(op, rec)| {
+            rec.start > v.established
+                && !rec.rx.is_empty()
+                && matches!(step_of(&run.cfg, *op), Some(s) if s.pair == v.pair && matches!(s.op, CtlOp::Subscribe { keep: false, .. }))
         });
         let alive = final_ids.contains(&(req.fab, req.node_id, v.id)) && run.device_incarnations == 1
             || (run.device_incarnations > 1 && final_ids.iter().any(|(f, n, _)| *f == req.fab && *n == req.node_id));
